@@ -476,3 +476,43 @@ func (e *Env) upload(op *Op) *Outcome {
 	}
 	return descOutcome(d)
 }
+
+// Diff compares two outcomes of the same operation on two registries that should be
+// observably equal. It returns "" when they agree, else a short description and a stable
+// class of the disagreement. Message texts are never compared.
+func Diff(a, b *Outcome, compareSize bool) (what, class string) {
+	if a.OK != b.OK {
+		return fmt.Sprintf("one succeeded (%v) and the other failed (%s vs %s)", a.OK, a, b), "success"
+	}
+	if !a.OK {
+		ca, cb := a.Code, b.Code
+		if ca == "" {
+			ca = "UNKNOWN"
+		}
+		if cb == "" {
+			cb = "UNKNOWN"
+		}
+		if ca != cb {
+			return fmt.Sprintf("error codes differ: %q vs %q (%s | %s)", a.Code, b.Code, a.Err, b.Err), "code"
+		}
+		if len(a.Items) != len(b.Items) {
+			return fmt.Sprintf("items before the error differ: %q vs %q", a.Items, b.Items), "items"
+		}
+		return "", ""
+	}
+	if a.Digest != b.Digest || a.MediaType != b.MediaType || compareSize && a.Size != b.Size {
+		return fmt.Sprintf("descriptors differ: %s/%d/%s vs %s/%d/%s", a.Digest, a.Size, a.MediaType, b.Digest, b.Size, b.MediaType), "descriptor"
+	}
+	if a.HasData != b.HasData || !bytes.Equal(a.Data, b.Data) || a.ReadErr != "" != (b.ReadErr != "") {
+		return fmt.Sprintf("content differs: %d bytes (%s, read_err=%q) vs %d bytes (%s, read_err=%q)", len(a.Data), short(Digest(a.Data)), a.ReadErr, len(b.Data), short(Digest(b.Data)), b.ReadErr), "content"
+	}
+	if (a.Items == nil) != (b.Items == nil) || len(a.Items) != len(b.Items) {
+		return fmt.Sprintf("listings differ: %q vs %q", a.Items, b.Items), "items"
+	}
+	for i := range a.Items {
+		if a.Items[i] != b.Items[i] {
+			return fmt.Sprintf("listings differ: %q vs %q", a.Items, b.Items), "items"
+		}
+	}
+	return "", ""
+}
